@@ -963,6 +963,34 @@ fn make_completion(d: &mut Dec, ctx: &mut Ctx) -> Value {
                     return json!({"kind":"completion","mode":"colon","text":text2,"files":goml::files_to_json(&fs),"after_line":ml,"indent":4,"recv":recv,"prefix":"",
                                   "form": if d.bool() { "let" } else { "bare" }, "source":"project-prefix-twins"});
                 }
+                // one more imported package whose name ENDS with (or starts with) the name of the package that
+                // is completed: its members are not members of that package
+                if imports_of(&text).contains(&recv) && d.chance(110) {
+                    let twin = if d.chance(180) { format!("{}{recv}", ["Str", "My", "X"][d.below(3)]) } else { format!("{recv}Extra") };
+                    if !imports_of(&text).contains(&twin) {
+                        let mut out_lines: Vec<String> = vec![];
+                        let last_import = lines.iter().rposition(|l| l.trim().starts_with("import "));
+                        for (i, l) in lines.iter().enumerate() {
+                            out_lines.push(l.to_string());
+                            if Some(i) == last_import {
+                                out_lines.push(format!("import {twin}"));
+                            }
+                        }
+                        let text2 = out_lines.join("\n") + "\n";
+                        let mut fs = pc.files.clone();
+                        for (p, t) in fs.iter_mut() {
+                            if p == "main.gom" {
+                                *t = text2.clone();
+                            }
+                        }
+                        fs.push((
+                            format!("{twin}/lib.gom"),
+                            format!("package {twin}\n\nstruct TwinBox {{\n    n: int32,\n}}\n\nenum TwinKind {{\n    TwinFlat,\n}}\n\nfn twin_only() -> int32 {{\n    1\n}}\n"),
+                        ));
+                        return json!({"kind":"completion","mode":"colon","text":text2,"files":goml::files_to_json(&fs),"after_line":ml + 1,"indent":4,"recv":recv,"prefix":"",
+                                      "form": if d.bool() { "let" } else { "bare" }, "source":"project-package-twins"});
+                    }
+                }
                 return json!({"kind":"completion","mode":"colon","text":text,"files":files,"after_line":ml,"indent":4,"recv":recv,"prefix":"",
                               "form": if d.bool() { "let" } else { "bare" }, "source":"project"});
             }
@@ -1226,6 +1254,9 @@ impl Check for C20 {
             PhaseSpec { name: "crash", cases: tier.pick(50_000, 300_000), max_bytes: 420, exhaustive: false },
             PhaseSpec { name: "hover", cases: tier.pick(8_000, 40_000), max_bytes: 500, exhaustive: false },
             PhaseSpec { name: "completion", cases: tier.pick(24_000, 120_000), max_bytes: 400, exhaustive: false },
+            // the fixed programs whose answers query_test.rs pins down: a labelled case, not part of setup, so that
+            // a hover that answers them wrongly is a violation and not an inconclusive run
+            PhaseSpec { name: "fixed", cases: 1, max_bytes: 0, exhaustive: true },
         ]
     }
     fn make(&self, phase: &str, _index: u64, bytes: &[u8], ctx: &mut Ctx) -> Case {
@@ -1234,6 +1265,7 @@ impl Check for C20 {
         Case::new(match phase {
             "crash" => make_crash(&mut d, ctx),
             "hover" => make_hover(&mut d, ctx, tier),
+            "fixed" => json!({"kind": "fixed"}),
             _ => make_completion(&mut d, ctx),
         })
     }
@@ -1241,6 +1273,22 @@ impl Check for C20 {
         match case.input["kind"].as_str().unwrap_or("") {
             "crash" => judge_crash(&case.input, ctx),
             "hover" => judge_hover(&case.input, ctx),
+            "fixed" => {
+                if let Err(e) = validate_hover(ctx) {
+                    return CaseOut::fail("C20|hover|fixed-answers".into(), e, 1);
+                }
+                let path = qpath(ctx);
+                let good = "struct P { x: int32 }\n\nfn main() {\n    let p = P { x: 1 };\n    p.\n}\n";
+                match sandbox::cli(|| query::dot_completions(&path, good, 4, 6)) {
+                    Err(p) => CaseOut::fail("C20|completion|fixed-control".into(), format!("completion control panics: {}", p.message), 1),
+                    Ok(items) if items.as_ref().map_or(true, |v| v.len() != 1 || v[0].name != "x") => CaseOut::fail(
+                        "C20|completion|fixed-control".into(),
+                        format!("expected the single field x after `p.` in\n{good}\ngot {items:?}"),
+                        1,
+                    ),
+                    Ok(_) => CaseOut::pass(true, 1).labelled(vec!["fixed:answers-ok".to_string()]),
+                }
+            }
             _ => judge_completion(&case.input, ctx),
         }
     }
@@ -1261,7 +1309,6 @@ impl Check for C20 {
         ]
     }
     fn setup(&self, ctx: &mut Ctx) -> Result<Value, String> {
-        let v = validate_hover(ctx)?;
         // the completion oracle must be able to see a bogus item: a fixed negative control
         let path = qpath(ctx);
         let bad = "struct P { x: int32 }\n\nfn main() {\n    let p = P { x: 1 };\n    let _ = p.zz;\n    let _ = P::nope();\n    ()\n}\n";
@@ -1269,12 +1316,7 @@ impl Check for C20 {
         if !errs.iter().any(|m| says_unknown(m, "zz")) || !errs.iter().any(|m| says_unknown(m, "nope")) {
             return Err(format!("negative control: unknown field / method are not recognised in {errs:?}"));
         }
-        let good = "struct P { x: int32 }\n\nfn main() {\n    let p = P { x: 1 };\n    p.\n}\n";
-        let items = sandbox::cli(|| query::dot_completions(&path, good, 4, 6)).map_err(|p| format!("completion control panics: {}", p.message))?;
-        if items.as_ref().map_or(true, |v| v.len() != 1 || v[0].name != "x") {
-            return Err(format!("completion control: expected the single field x after `p.`, got {items:?}"));
-        }
-        Ok(json!({"hover": v, "completion_controls": 2}))
+        Ok(json!({"hover": "20 fixed answers are the case of phase `fixed`", "completion_controls": 2}))
     }
     fn required_labels(&self, _tier: Tier) -> Vec<&'static str> {
         vec![
@@ -1312,6 +1354,7 @@ impl Check for C20 {
             "source:project",
             "mark:literal",
             "inserted:well-typed",
+            "fixed:answers-ok",
         ]
     }
     fn max_discard_fraction(&self) -> f64 {
